@@ -16,6 +16,8 @@ RULE = ('case = (aggregation-rules file from the documented pattern language wit
         'have dropped the buffer; buffered intervals <= MAX+2 after a flush; idle series released; pass-through exactly once under '
         'FORWARD_ALL and never otherwise; exhaustive short event sequences + seeded random streams; non-trivial = sequence with '
         '>=1 emission and >=1 late or duplicate datapoint; distinct = (rules, config, sequence)')
+RULE_MORE = (' The retention model is applied at the observed flushes (idle expiry after MAX intervals, then MAX+2 trimming), expected values are exact; further families: rules edited mid-stream, intervals of 1001-4001 values under every method, name caches whose TTL clock moves with every look at it.')
+RULE = RULE + RULE_MORE
 EXHAUSTIVE = {'quick': True, 'thorough': True}
 EXHAUSTIVE_OVER = 'all event sequences up to length L (quick 5, thorough 6) over a 9-event alphabet for the fixed rule set'
 ASSUMPTIONS = ['two rules never claim the same aggregate name (output templates get distinct literal heads)',
